@@ -249,6 +249,9 @@ pub fn gen_cases(s: &SetInfo, ctx: &Ctx) -> Vec<Case> {
             if quick && (i * 7 + j * 3) % 11 != 0 && i != j {
                 continue;
             }
+            if !quick && (i + j) % 2 != 0 && i != j {
+                continue;
+            }
             let sa = if (i + j) % 4 == 3 { "fix" } else { "in" };
             push(
                 "binary",
@@ -372,7 +375,7 @@ pub fn gen_cases(s: &SetInfo, ctx: &Ctx) -> Vec<Case> {
     push("bit2f", vec![fop!("inbit", 1), fop!("bit2f", 0), fop!("inbit", 0), fop!("bit2f", 2), fop!("add", 1, 3), fop!("mul", 1, 3), fop!("pi", 4), fop!("pi", 5)]);
 
     // ---- random programs
-    let nrand = if quick { 12 } else { 120 };
+    let nrand = if quick { 12 } else { 50 };
     for _ in 0..nrand {
         let mut ops: Vec<Op> = vec![];
         let mut fes: Vec<usize> = vec![];
@@ -655,6 +658,19 @@ where
     MEP: FieldEmulationParams<F, K>,
 {
     let s = set_info::<F, K>(name);
+    // the chip must configure (check_params, mul / norm bounds) for a compiled-in set
+    if let Err(p) = catch(|| {
+        let mut cs = ConstraintSystem::<F>::default();
+        let _ = ProgCircuit::<F, K>::configure(&mut cs);
+    }) {
+        ofail(
+            ctx,
+            &format!("configure:{name}"),
+            "a compiled-in parameter set fails its configure-time checks",
+            json!({"set": name, "panic": p, "replay": format!("C05_PROG=\"{name} ; in 0x1 ; in 0x2 ; mul 0 1\" harness/target/release/h-c05")}),
+        );
+        return;
+    }
     let cases = gen_cases(&s, ctx);
     crate::gates::geval::<F, K>(ctx, name, if crate::small(ctx) { 6 } else { 40 });
     let mut done_rows = 0usize;
@@ -663,7 +679,7 @@ where
     for case in &cases {
         let Some(run) = run_case::<F, K>(ctx, &s, case) else { continue };
         if run.verdict == Ok(true) && case.ops.iter().any(|o| o.name == "pi") {
-            let lim = if crate::small(ctx) { 3 } else { 30 };
+            let lim = if crate::small(ctx) { 3 } else { 10 };
             if done_wrong < lim && matches!(case.kind.as_str(), "binary" | "unary" | "random" | "chain-double" | "regression") {
                 done_wrong += 1;
                 wrong_public::<F, K>(ctx, &s, case);
@@ -671,20 +687,20 @@ where
         }
         if run.verdict == Ok(true)
             && matches!(case.kind.as_str(), "binary" | "div" | "unnormalised" | "chain-sub" | "chain-double" | "random" | "lc" | "mulc" | "frombits")
-            && done_rows < if crate::small(ctx) { 60 } else { 600 }
+            && done_rows < if crate::small(ctx) { 60 } else { 250 }
         {
             if let Some(rec) = record::<F, K>(&case.ops) {
                 done_rows += 1;
                 crate::gates::rows::<F, K>(ctx, name, &rec, 4);
             }
         }
-        let per_kind = if crate::small(ctx) { 1 } else { 6 };
+        let per_kind = if crate::small(ctx) { 1 } else { 2 };
         let tamper_kinds: &[&str] = if ctx.quick() { &["binary", "div", "unnormalised"] } else { &["binary", "div", "unnormalised", "chain-sub", "inv", "lc"] };
         if run.verdict == Ok(true) && tamper_kinds.contains(&case.kind.as_str()) {
             let e = done_tamper.entry(case.kind.clone()).or_insert(0);
             if *e < per_kind {
                 *e += 1;
-                tamper_sweep::<F, K>(ctx, &s, case, if crate::small(ctx) { 6 } else { 60 });
+                tamper_sweep::<F, K>(ctx, &s, case, if crate::small(ctx) { 6 } else { 25 });
             }
         }
     }
